@@ -189,6 +189,26 @@ def run(ctx):
     if ctx.tier == "thorough":
         from .. import witness
         witness.check(ctx, "C19.witness", {"C19PrivOwnedStr": "PrivOwnedStr is constructible from another crate: _Custom(known string) can be built, which compares unequal to the known variant"})
+    if ctx.tier == "thorough":
+        # the error code of a client-server error is a string enum (ErrorCode) reached through a second, hand-written table: ErrorKind::errcode() is what
+        # Serialize for ErrorKind writes as `errcode`, the Deserialize side goes ErrorCode -> ErrorKind. Same-named variants correspond.
+        rule_e = "C19.errcode-table"
+        ctx.rule(rule_e, "ErrorKind::errcode(): every variant V maps to ErrorCode::V (the custom variant to the code it carries) and every variant has an arm: the "
+                         "`errcode` string written for an ErrorKind is the one that is read back as the same kind")
+        fe = w.fn("ruma_client_api::error::ErrorKind::errcode")
+        dexe = D.Dex(w.lookup, adt_discr=w.adt_discr, inline=lambda n_: False, ctors=w.ctors)
+        tab = {}
+        for p_ in dexe.paths(fe, [D.sym("self")]):
+            vs = [D.show_atom(a_).split(" is ")[-1] for a_, t_ in p_.conds if t_ and " is " in D.show_atom(a_)]
+            if p_.kind == "ret" and len(vs) == 1:
+                tab[vs[0]] = D.show(p_.ret)
+        adt_k = w.adts.get("ruma_client_api::error::ErrorKind")
+        kinds = {v_["name"] for v_ in adt_k["variants"]} if adt_k else set()
+        bad_e = {k_: v_ for k_, v_ in tab.items() if (v_ != f"ErrorCode::{k_}" if k_ != "_Custom" else not v_.startswith("self._Custom."))}
+        ctx.floor("arms of ErrorKind::errcode", len(tab), 40)
+        ctx.check(not bad_e and kinds == set(tab), rule_e, f"{rule_e}:errcode", w.where(fe),
+                  bad_msg=f"ErrorKind::errcode maps {bad_e} (variants without an arm: {sorted(kinds - set(tab))}): the kind is serialized under another error code and "
+                          f"comes back as a different kind")
     # JSON deserialization agrees with string conversion only if no Deserialize impl (derived, generated or hand-written, e.g. JoinRule's tag extraction)
     # asks the deserializer for a borrowed &str: such an impl refuses every spelling that contains a JSON escape
     from . import C18 as _C18
